@@ -582,7 +582,72 @@ def coord_parser(base, seen):
     return P
 
 
+BLANK_TEXTS = ['{,,}', '{;;}', '{,,;,,}', '{,}', '{1,,}', '{,,2}']
+
+
+def check_handed_out(A, B):
+    """What an evaluation hands out belongs to whoever received it: the host of parser A changing such a value in place changes nothing for later evaluations, on B or on A."""
+    import copy
+    first = {}
+    for text in BLANK_TEXTS:
+        r = A.parse(text)
+        first[text] = copy.deepcopy(r)
+        v = r['result']
+        if isinstance(v, list):
+            for i in range(len(v)):
+                if isinstance(v[i], list):
+                    v[i][:] = [7]
+                else:
+                    v[i] = 7
+            v.append('x')
+    for who, P in (('B', B), ('A', A)):
+        for text in BLANK_TEXTS:
+            r = P.parse(text)
+            if r != first[text]:
+                raise Violation('parser A evaluated %r to %r and its host changed that value in place; afterwards parser %s evaluates %r to %r' % (text, first[text], who, text, r), enc(r['result']), enc(first[text]['result']))
+
+
+def check_many_suspended(n=30):
+    """n evaluations, each on a parser and a thread of its own, all suspended inside a custom function at the same moment: one more evaluation on a fresh parser is none of their business."""
+    arrived, go = threading.Semaphore(0), threading.Event()
+    out = [None] * n
+
+    def work(k):
+        P = hot().Parser()
+
+        def wait():
+            arrived.release()
+            go.wait(30)
+            return k
+        P.set_function('WAITHERE', wait)
+        out[k] = P.parse('WAITHERE()+1')
+    ts = [threading.Thread(target=work, args=(k,)) for k in range(n)]
+    for t in ts:
+        t.daemon = True
+        t.start()
+    try:
+        ok = all(arrived.acquire(timeout=30) for _ in range(n))
+        if ok:
+            Q = hot().Parser()
+            Q.set_variable('v_x', 20)
+            r = Q.parse('SUM(v_x,1,2)*2')
+    finally:
+        go.set()
+        for t in ts:
+            t.join(30)
+    if not ok:
+        return          # the threads did not all get there (machine load): nothing learnt
+    if r != {'result': 46, 'error': None}:
+        raise Violation('with %d evaluations suspended on %d other parsers in %d other threads, a fresh parser evaluates SUM(v_x,1,2)*2 (v_x = 20) to %r' % (n, n, n, r), r['error'] or enc(r['result']), 46)
+    for k in range(n):
+        if out[k] != {'result': k + 1, 'error': None}:
+            raise Violation('%d evaluations suspended at once, each on its own parser and thread: number %d (WAITHERE()+1, the function returns %d) gives %r' % (n, k, k, out[k]), repr(out[k]), k + 1)
+
+
 def check_cross_state(case):
+    check_handed_out(hot().Parser(), hot().Parser())
+    if len(case['steps']) % 3 == 2:
+        check_many_suspended()
     seenA, seenB = [], []
     A = coord_parser(1000, seenA)
     B = coord_parser(500000, seenB)
@@ -728,7 +793,7 @@ LAWS = [
         rule='thorough only: 8 free-running threads x distinct parsers x 200 formulas with a 1 microsecond switch interval; every outcome equals the solo outcome'),
     Law('cross_parser_state', check_cross_state, strategy=cross_case, classes=cross_classes, required=('reversed-range', 'absolute-cell', 'both-parsers'), quick=1500, thorough=60000, shards=(8, 16),
         nontrivial=lambda c: 'both-parsers' in cross_classes(c), key=lambda c: 'cross-parser-state',
-        rule='2-8 evaluations alternating between two parsers whose listeners answer purely from the coordinates they are handed (formulas over cells with every marker pattern and ranges in all corner orders, SUM/MAX/MIN, + - *): '
+        rule='(each case first: six blank-slot array literals evaluated on a parser A, the values changed in place by the host, then evaluated on B and on A again; one case in three: 30 evaluations suspended at once on 30 parsers in 30 threads while a fresh parser evaluates) 2-8 evaluations alternating between two parsers whose listeners answer purely from the coordinates they are handed (formulas over cells with every marker pattern and ranges in all corner orders, SUM/MAX/MIN, + - *): '
              'every outcome equals the value computed from the coordinates *written in the formula* by the reference label parser, and every cell handed to a listener has a label that re-parses to its own coordinates - an oracle that shares no state with the library'),
     Law('binding_isolation', check_bindings, strategy=st.fixed_dictionaries({'ops': st.lists(op_s, min_size=1, max_size=10), 'order': st.sampled_from(['A-first', 'B-first'])}),
         quick=1500, thorough=60000, shards=(8, 16), nontrivial=lambda c: len(c['ops']) >= 2,
